@@ -26,10 +26,11 @@ add("C01", "model_checking",
     B_NOTE + BOUNDED_NOTE + "The compile-time analysis update_backtracks is covered only through the bounded layer unless listed under proved_obligations.",
     "Kani function contracts on lexgen_util + bounded step-contract harnesses (Kani/CBMC) on generated lexers against a generated reference", "5 C01, 11.4")
 add("C02", "model_checking",
-    "Bounded: step-contract harnesses compare the generated lexer with a denotational regex matcher (structural recursion on the AST, straight-line tables) on 11 definitions covering "
+    "Proved (Verus): NFA::compute_state_closure returns exactly the epsilon-closure (contains the seeds, closed, every member reachable, terminates); the range-map merge used by overlapping "
+    "transitions is proved in C11's units. Bounded: step-contract harnesses compare the generated lexer with a denotational regex matcher (structural recursion on the AST, straight-line tables) on 11 definitions covering "
     "every operator, overlapping ranges, `_` with ranges and literals, nested repetition, equivalent spellings (r+ / r r*, a|b / b|a, variable / definition, string / characters) "
-    "and precedence-sensitive raw spellings. The range-map merge used by overlapping transitions is proved in C11's Verus units.",
-    BOUNDED_NOTE + "add_re / nfa_to_dfa / simplify have no contract (TokenStream-free but closure/iterator heavy; a mechanised subset-construction proof is out of reach here).",
+    "and precedence-sensitive raw spellings.",
+    BOUNDED_NOTE + "compute_state_closure: assumed specs of <&HashSet as IntoIterator>::into_iter and HashSet::clone, one trusted R7 fragment, wf_nfa not verified at callers. add_re / nfa_to_dfa / simplify have no contract (TokenStream-free but closure/iterator heavy; a mechanised subset-construction proof is out of reach here).",
     "bounded step-contract harnesses (Kani/CBMC) on generated lexers against a denotational reference", "5 C02, 11.4")
 add("C03", "model_checking",
     "Proved (Verus): CgCtx::renumber_state subtracts exactly the number of inlined states below a state and never underflows. Bounded: step contract with SYMBOLIC active rule set "
@@ -74,9 +75,11 @@ add("C10", "model_checking",
 add("C11", "proof",
     "Verus discharges, for unbounded vectors and every u32 code point, that RangeMap::insert / insert_ranges / remove_ranges (real text of range_map.rs, extracted on every run) preserve "
     "well-formedness (sorted, disjoint, non-empty pieces) and compute exactly union / difference of the covered code points, terminate and never overflow; constructors and accessors have exact "
-    "functional postconditions. Additionally single-class lexers (bracket sets, `_`, built-in, `|`, chained `#`) are checked by Kani over the WHOLE scalar domain (one-character window: complete per definition).",
+    "functional postconditions; and that the real regex_to_range_map turns every class expression (character, bracket set, `_`, built-in, variable, `|`, `#`) into a well-formed range map denoting "
+    "exactly its set, with every panic arm unreachable for class expressions. Additionally single-class lexers (bracket sets, `_`, built-in, `|`, chained `#`) are checked by Kani over the WHOLE scalar domain (one-character window: complete per definition).",
     "Trusted: Verus/Z3, extraction rules R1 R8 R11 R12 R14, assumed specs of mem::take, cmp::max/min, RangeInclusive::start/end, Vec::extend, derived Clone of Range; RangeMap::map not under "
-    "contract; regex_to_range_map (the caller) is covered through the single-class lexers only. The native small-scope replayer only produces witnesses.",
+    "contract; in the regex_to_range_map unit the RangeMap callees are restated contracts (kept equal to the proved ones by hand), the class denotation is given by guarded defining axioms, "
+    "termination of regex_to_range_map is not proved, the built-in name lookup is trusted (C13). The native small-scope replayer only produces witnesses.",
     "contract-based deductive verification (Verus) of mechanically extracted real functions", "5 C11, 11.2")
 add("C12", "other",
     "Bounded stand-in by execution: 68 definitions (the whole layer-C corpus plus 14 C12-specific ones: the formerly non-terminating five-rule definition, contexts of every shape, repeated "
@@ -130,7 +133,7 @@ def main():
                   "enable": "./check <ID> snapshots /repo (rsync of the working tree) and splices Verus annotations / Kani contracts there",
                   "baseline_off_cmd": "cd /repo && cargo test --workspace --no-fail-fast --offline", "source_commits": [], "add_only": True},
         "engines": [
-            {"name": "verus-units", "path": "vlib/transplant.py + contracts/verus/*.vt", "serves_properties": ["C03", "C11", "C12", "C13", "C18"],
+            {"name": "verus-units", "path": "vlib/transplant.py + contracts/verus/*.vt", "serves_properties": ["C01", "C02", "C03", "C11", "C12", "C13", "C18"],
              "kind_free_text": "real functions extracted mechanically from the snapshot, annotations transplanted by token alignment, verified by Verus/Z3"},
             {"name": "kani-contracts+step-harnesses", "path": "contracts/kani/lexgen_util.py + vlib/gen_corpus.py + corpus/defs.py",
              "serves_properties": ["C01", "C02", "C03", "C04", "C05", "C06", "C07", "C08", "C09", "C10", "C11", "C14", "C15"],
